@@ -100,7 +100,8 @@ def check(facts, rep, tier, cfg):
     for b, bi, s, fields in struct_inits(facts, crate, BR):
         rep.analysed(b)
         where = "%s (%s)" % (loc_str(s["loc"]), b.path)
-        it = Inter(facts, root=b.dp)
+        _d = rules_c10.dispatcher(crate)
+        it = Inter(facts, root=_d.dp if _d else b.dp)   # expand helper parameters up to (not beyond) the frame dispatcher
         fid = rules_c03.top_roles(it.expand(b, it.tracer(b).operand(fields["flow_id"])))
         pl = rules_c03.top_roles(it.expand(b, it.tracer(b).operand(fields["payload"])))
         if fid == {"Frame.id"} and pl == {"Payload.0"} or (fid == {"Frame.id"} and "as:Bind" in rules_c03._flat_fields(it.expand(b, it.tracer(b).operand(fields["payload"])))):
